@@ -234,7 +234,9 @@ func (c *ChunkComposer) RunLoop(reader io.Reader, cb OnCompleteMessage) error {
 					stream.msg.Skip(3)
 					aggregateStream.timestamp += uint32(stream.msg.buff.Bytes()[0]) << 24
 					stream.msg.Skip(1)
-					aggregateStream.header.MsgStreamId = int(bele.BeUint24(stream.msg.buff.Bytes()))
+					// rtmp spec 6.1.1: the message stream id of the aggregate message overrides
+					// the message stream ids of the sub-messages inside the aggregate
+					aggregateStream.header.MsgStreamId = stream.header.MsgStreamId
 					stream.msg.Skip(3)
 
 					// 计算时间戳
